@@ -703,10 +703,24 @@ func VerifC16RuntimeSteps() {
 	_ = sub.AddEdge(START, "s1")
 	_ = sub.AddEdge("s1", "s2")
 	_ = sub.AddEdge("s2", END) // the nested graph needs 2 steps
+	// optionally the addressed graph sits one level deeper: sub = mid{ inner }
+	deep := vchoose("deep", 2) == 1
+	var subNode AnyGraph = sub
+	if deep {
+		mid := NewGraph[map[string]any, map[string]any]()
+		_ = mid.AddGraphNode("inner", sub)
+		_ = mid.AddLambdaNode("m1", vNode("m1", nil))
+		_ = mid.AddLambdaNode("m2", vNode("m2", nil))
+		_ = mid.AddEdge(START, "m1")
+		_ = mid.AddEdge("m1", "m2")
+		_ = mid.AddEdge("m2", "inner")
+		_ = mid.AddEdge("inner", END) // mid needs 3 steps of its own
+		subNode = mid
+	}
 	g := NewGraph[map[string]any, map[string]any]()
 	_ = g.AddLambdaNode("a", vNode("a", nil))
 	_ = g.AddLambdaNode("b", vNode("b", nil))
-	_ = g.AddGraphNode("sub", sub)
+	_ = g.AddGraphNode("sub", subNode)
 	_ = g.AddLambdaNode("c", vNode("c", nil))
 	_ = g.AddLambdaNode("d", vNode("d", nil))
 	prev := START
@@ -721,7 +735,11 @@ func VerifC16RuntimeSteps() {
 	designated := vchoose("designated", 2) == 1
 	opt := WithRuntimeMaxSteps(limit)
 	if designated {
-		opt = opt.DesignateNode("sub")
+		if deep {
+			opt = opt.DesignateNodeWithPath(NewNodePath("sub", "inner"))
+		} else {
+			opt = opt.DesignateNode("sub")
+		}
 	}
 	_, rerr := r.Invoke(ctx, map[string]any{"in": 1}, opt)
 	needs := 5
